@@ -6,6 +6,7 @@ import (
 	"fmt"
 	"strconv"
 	"strings"
+	"unicode/utf16"
 
 	"github.com/tsawler/tabula/core"
 )
@@ -33,6 +34,10 @@ type CMapRange struct {
 	StartCode    uint32
 	EndCode      uint32
 	StartUnicode uint32
+
+	// UTF-16 code units of the first target when it has more than one
+	// (supplementary-plane character or multi-character string)
+	startUnits []uint16
 }
 
 // NewCMap creates a new empty CMap
@@ -361,11 +366,21 @@ func (cm *CMap) parseBfRangeSection(section string) error {
 		}
 
 		r := CMapRange{StartCode: startCode, EndCode: endCode}
-		dstUnicode, err := parseHexToUint32(dstHex)
-		if err != nil {
-			continue
+		units, err := hexToUTF16Units(dstHex)
+		switch {
+		case err == nil && len(units) > 1:
+			// Surrogate pair or multi-character target (e.g. a ligature):
+			// the last code unit is incremented across the range
+			r.startUnits = units
+		case err == nil && len(units) == 1:
+			r.StartUnicode = uint32(units[0])
+		default:
+			dstUnicode, err := parseHexToUint32(dstHex)
+			if err != nil {
+				continue
+			}
+			r.StartUnicode = dstUnicode
 		}
-		r.StartUnicode = dstUnicode
 		cm.rangeMappings = append(cm.rangeMappings, r)
 	}
 
@@ -385,6 +400,11 @@ func (cm *CMap) Lookup(charCode uint32) string {
 		if charCode >= r.StartCode && charCode <= r.EndCode {
 			// Calculate Unicode value
 			offset := charCode - r.StartCode
+			if len(r.startUnits) > 0 {
+				units := append([]uint16(nil), r.startUnits...)
+				units[len(units)-1] += uint16(offset)
+				return string(utf16.Decode(units))
+			}
 			unicodeValue := r.StartUnicode + offset
 			return string(rune(unicodeValue))
 		}
@@ -518,6 +538,26 @@ func parseHexToUint32(hexStr string) (uint32, error) {
 	}
 
 	return uint32(val), nil
+}
+
+// hexToUTF16Units decodes a hex string (UTF-16BE) into its code units
+func hexToUTF16Units(hexStr string) ([]uint16, error) {
+	hexStr = strings.Join(strings.Fields(hexStr), "")
+	if len(hexStr)%2 != 0 {
+		hexStr = "0" + hexStr
+	}
+	data, err := hex.DecodeString(hexStr)
+	if err != nil {
+		return nil, err
+	}
+	if len(data)%2 != 0 {
+		return nil, fmt.Errorf("invalid UTF-16BE data length")
+	}
+	units := make([]uint16, len(data)/2)
+	for i := range units {
+		units[i] = uint16(data[2*i])<<8 | uint16(data[2*i+1])
+	}
+	return units, nil
 }
 
 // hexToUnicode converts hex string to Unicode string
